@@ -14,6 +14,9 @@
 #include "fixture.h"
 #include "CppUTestExt/MockSupport.h"
 #include "CppUTestExt/MockFailure.h"
+#include "CppUTestExt/MockSupportPlugin.h"
+#include "CppUTest/TestRegistry.h"
+#include "CppUTest/TestOutput.h"
 
 namespace {
 
@@ -215,32 +218,35 @@ std::string joined(const vh::Words& w) {
     return s;
 }
 
+// one scenario operation (shared by the direct mode and the plugin mode); `rep` is the recording
+// reporter of the direct mode (re-installed after clear), 0 in the plugin mode
+void exec_op(Scenario& sc, const vh::Words& w, MockFailureReporter* rep) {
+    const std::string& op = w[0];
+    bool scoped = w.size() >= 2 && (w[1] == "-" || is_name(w[1]));
+    if (w.size() == 2 && scoped && (op == "strict" || op == "ioc" || op == "enable" || op == "disable" ||
+                                    op == "check" || op == "clear" || op == "left")) {
+        vh::emit_op(joined(w));
+        MockSupport& ms = Scenario::scope(w[1]);
+        if (op == "strict") ms.strictOrder();
+        else if (op == "ioc") ms.ignoreOtherCalls();
+        else if (op == "enable") ms.enable();
+        else if (op == "disable") ms.disable();
+        else if (op == "check") ms.checkExpectations();
+        else if (op == "clear") { ms.clear(); if (w[1] == "-" && rep) mock().setMockFailureStandardReporter(rep); }
+        else if (op == "left") vh::emit("left %d", ms.expectedCallsLeft() ? 1 : 0);
+    }
+    else if (op == "expect" && scoped && sc.valid_expect(w)) { vh::emit_op(joined(w)); sc.do_expect(w); }
+    else if (op == "call" && scoped && sc.valid_call(w)) { vh::emit_op(joined(w)); sc.do_call(w); }
+    else vh::emit("> skip");
+}
+
 void body() {
     RecordingReporter rep;
     Scenario sc;
     const vh::Case& c = *g_case;
     mock().setMockFailureStandardReporter(&rep);
     try {
-        for (size_t i = 0; i < c.ops.size(); i++) {
-            const vh::Words& w = c.ops[i];
-            const std::string& op = w[0];
-            bool scoped = w.size() >= 2 && (w[1] == "-" || is_name(w[1]));
-            if (w.size() == 2 && scoped && (op == "strict" || op == "ioc" || op == "enable" || op == "disable" ||
-                                            op == "check" || op == "clear" || op == "left")) {
-                vh::emit_op(joined(w));
-                MockSupport& ms = Scenario::scope(w[1]);
-                if (op == "strict") ms.strictOrder();
-                else if (op == "ioc") ms.ignoreOtherCalls();
-                else if (op == "enable") ms.enable();
-                else if (op == "disable") ms.disable();
-                else if (op == "check") ms.checkExpectations();
-                else if (op == "clear") { ms.clear(); if (w[1] == "-") mock().setMockFailureStandardReporter(&rep); }
-                else if (op == "left") vh::emit("left %d", ms.expectedCallsLeft() ? 1 : 0);
-            }
-            else if (op == "expect" && scoped && sc.valid_expect(w)) { vh::emit_op(joined(w)); sc.do_expect(w); }
-            else if (op == "call" && scoped && sc.valid_call(w)) { vh::emit_op(joined(w)); sc.do_call(w); }
-            else vh::emit("> skip");
-        }
+        for (size_t i = 0; i < c.ops.size(); i++) exec_op(sc, c.ops[i], &rep);
     }
     catch (const Stop&) {
         vh::emit("fail %s", canonical_first_line(rep.first).c_str());
@@ -250,8 +256,83 @@ void body() {
     mock().clear();
 }
 
+// ---------------------------------------------------------------------------------------------
+// plugin mode: `plugin` as first line, then `test NAME` + scenario lines (+ `fail` = a plain FAIL at
+// that point of the test body) for 2..5 scripted tests.  They run in a private TestRegistry with the
+// real MockSupportPlugin installed; nothing but the plugin checks expectations and clears the mock.
+// Per test: `> test NAME`, the scenario lines that were executed, `> endtest` (printed by teardown(),
+// i.e. before the plugin's postTestAction), every failure of the test as `fail <first line>` at the
+// moment it is reported, and `verdict pass|fail` when the run has finished the test.
+
+struct RecordingOutput : public StringBufferTestOutput {
+    int failures;
+    RecordingOutput() : failures(0) {}
+    virtual void printCurrentTestStarted(const UtestShell&) CPPUTEST_OVERRIDE { failures = 0; }
+    virtual void printFailure(const TestFailure& failure) CPPUTEST_OVERRIDE {
+        failures++;
+        vh::emit("fail %s", canonical_first_line(failure.getMessage().asCharString()).c_str());
+    }
+    virtual void printCurrentTestEnded(const TestResult&) CPPUTEST_OVERRIDE { vh::emit("verdict %s", failures ? "fail" : "pass"); }
+};
+
+struct ScriptedTest {
+    std::string name;
+    std::vector<vh::Words> ops;
+    Scenario pool;            // must outlive the plugin's postTestAction (expectations point into it)
+};
+std::deque<ScriptedTest>* g_tests = 0;
+
+class ScriptUtest : public Utest {
+    ScriptedTest& t_;
+public:
+    ScriptUtest(ScriptedTest& t) : t_(t) {}
+    virtual void testBody() CPPUTEST_OVERRIDE {
+        vh::emit("> test %s", t_.name.c_str());
+        for (size_t i = 0; i < t_.ops.size(); i++) {
+            const vh::Words& w = t_.ops[i];
+            if (w.size() == 1 && w[0] == "fail") { vh::emit_op("fail"); FAIL("scripted"); }
+            else exec_op(t_.pool, w, 0);
+        }
+    }
+    virtual void teardown() CPPUTEST_OVERRIDE { vh::emit("> endtest"); }
+};
+
+class ScriptShell : public UtestShell {
+    ScriptedTest& t_;
+public:
+    ScriptShell(ScriptedTest& t) : UtestShell("scripted", "test", "h_c08.cpp", 1), t_(t) {}
+    virtual Utest* createTest() CPPUTEST_OVERRIDE { return new ScriptUtest(t_); }
+};
+
+void run_plugin_case(const vh::Case& c) {
+    std::deque<ScriptedTest> tests;
+    vh::emit_op("plugin");
+    for (size_t i = 1; i < c.ops.size(); i++) {
+        const vh::Words& w = c.ops[i];
+        if (w[0] == "test" && w.size() == 2 && is_name(w[1])) { tests.push_back(ScriptedTest()); tests.back().name = w[1]; }
+        else if (!tests.empty()) tests.back().ops.push_back(w);
+        else vh::emit("> skip");
+    }
+    g_tests = &tests;
+    {
+        RecordingOutput output;
+        TestResult result(output);
+        TestRegistry registry;
+        MockSupportPlugin plugin;
+        std::deque<ScriptShell> shells;
+        registry.setCurrentRegistry(&registry);
+        registry.installPlugin(&plugin);
+        for (size_t i = 0; i < tests.size(); i++) shells.push_back(ScriptShell(tests[i]));
+        for (size_t i = 0; i < shells.size(); i++) registry.addTest(&shells[shells.size() - 1 - i]);   // addTest prepends
+        registry.runAllTests(result);
+        registry.setCurrentRegistry(0);
+    }
+    mock().clear();
+}
+
 void run_case(const vh::Case& c) {
     g_case = &c;
+    if (!c.ops.empty() && c.ops[0].size() == 1 && c.ops[0][0] == "plugin") { run_plugin_case(c); return; }
     size_t failures = vh::in_fixture(body);
     if (failures) vh::emit("fixture-failures %lu", (unsigned long) failures);
 }
